@@ -36,7 +36,7 @@ CW = 'chainables.courier_worker'
 
 
 def run(ctx: Ctx):
-  for r in (r1, r2, r3, r4, r5, r6, r7, r10, r11, r13, r14, r15, r16, r17, r18):
+  for r in (r1, r2, r3, r4, r5, r6, r7, r10, r11, r13, r14, r15, r16, r17, r18, r20):
     ctx.guard(r)
   from mlmverif.props import c03
   from mlmverif.props import c15
@@ -775,11 +775,58 @@ def r16(ctx: Ctx):
   ctx.floor(rule, 1, n)
 
 
+def r20(ctx: Ctx):
+  rule = 'R-C16-20'
+  ctx.rule(rule, '"produces ... the same aggregate result as running it in one process", for every kind of data source: both'
+           ' distributed paths build the master-side merge runner with make(mode=AGGREGATE), which clears the data source'
+           ' through maybe_replace — and maybe_replace decides "unchanged?" with the module\'s equality helper under `not`.'
+           ' A helper whose value is used as a truth value returns a REAL bool on every path: `bool(<comparison>)`, a'
+           ' constant, an identity test, or a not-expression. `return a == b` hands back whatever __eq__ returns — for an'
+           ' ndarray data source an element-wise array, whose truth value raises outside the helper\'s own try')
+  mi = ctx.repo.module('chainables.transform')
+  n = 0
+  # helpers of the module that are called directly inside `not ...` / `if ...` tests
+  from mlmverif.props.c17 import _truth_positions
+  used_as_truth = set()
+  fns = list(mi.functions.values()) + [m_ for c in mi.classes.values() for m_ in c.methods.values()]
+  for fi in fns:
+    for t in _truth_positions(fi.node):
+      if isinstance(t, ast.Call) and isinstance(t.func, ast.Name) and t.func.id in mi.functions:
+        used_as_truth.add(t.func.id)
+  for name in sorted(used_as_truth):
+    fi = mi.functions[name]
+    for r_ in walk_no_nested(fi.node):
+      if not (isinstance(r_, ast.Return) and r_.value is not None):
+        continue
+      v = r_.value
+      n += 1
+      real = (isinstance(v, ast.Constant) or (isinstance(v, ast.Call) and unparse(v.func) in ('bool', 'isinstance', 'callable', 'hasattr', 'any', 'all'))
+              or (isinstance(v, ast.UnaryOp) and isinstance(v.op, ast.Not))
+              or (isinstance(v, ast.Compare) and all(isinstance(o, (ast.Is, ast.IsNot, ast.In, ast.NotIn)) for o in v.ops))
+              or (isinstance(v, ast.BoolOp) and all(isinstance(z, ast.Call) and unparse(z.func) in ('bool', 'isinstance') for z in v.values)))
+      what = f'{name}: `{unparse(r_)[:50]}` returns a real bool'
+      if real:
+        ctx.ok(rule, fi, what, r_)
+      elif isinstance(v, ast.Compare):
+        ctx.fail(rule, fi, what,
+                 f'`{unparse(r_)}` in {name}() returns the raw result of a rich comparison, and {name}() is used as a truth value:'
+                 ' with an ndarray operand (a numpy data source compared with None) that result is an array and `not <array>`'
+                 ' raises "truth value ... is ambiguous" — the aggregate-mode runner of the distributed paths cannot be built',
+                 node=r_)
+      else:
+        ctx.info(rule, fi, what + ' (not a comparison; not decided)')
+  ctx.floor(rule, 2, n)
+
+
 from mlmverif.selfcheck import B, OK  # noqa: E402
 
 _T = 'chainables/transform.py'
 _O = 'chainables/orchestrate.py'
 VARIANTS = [
+    B('revert-equality-helper-returns-the-raw-comparison', 'chainables/transform.py',
+      "    # The comparison of array-likes is not a truth value.\n    return bool(a == b)\n", "    return a == b\n", 'R-C16-20'),
+    OK('equality-helper-via-operator-eq', 'chainables/transform.py',
+       "    # The comparison of array-likes is not a truth value.\n    return bool(a == b)\n", "    same = a == b\n    return bool(same)\n"),
     B('stage-merge-expects-one-state-per-pool-worker', 'chainables/orchestrate.py',
       "      agg_state = agg_fn.merge_states(agg_states)\n", "      agg_state = agg_fn.merge_states(\n          agg_states, strict_states_cnt=worker_pool.num_workers\n      )\n", 'R-C16-14'),
     B('remote-batch-from-single-gets', 'chainables/courier_server.py',
